@@ -12,7 +12,7 @@ CLAIM = ('Decides statically, on the RV64GC configuration: the back-end and its 
          'The meaning of the emitted words is decided for the ten integer register-form instructions (RV-HSEM: 2744 cases) and for the SuperscalarHash emitter except IMUL_RCP (RV-SS-HSEM) by symbolic execution on a register file of terms; no generator member survives a generate* call (GEN-RESET). Memory-form, floating-point, store and branch handlers and the hand-written runtime remain covered by the structural rules only; the vector (RVV) generator belongs to C01 / C18.'
          ' The far CBRANCH form is decoded from the emitted constant (branch-if-not-zero over the 4-byte jal).'
          ' The six memory-form integer instructions and ISTORE are validated the same way with a symbolic scratchpad: the emitted code must access exactly scratchpad + ((src + sext(imm32)) & mask) with the L1 / L2 / L3 mask the specification selects (src == dst: imm32 & L3 mask) (RV-MEM-HSEM, mask registers as loaded by the template); marks are the current instruction index (LW-VALUE).')
-LEVEL_NOTE = 'Trusted: clang cross parse with host libstdc++ headers plus stub headers; RISC-V instruction semantics and the B/J/CB encoding tables written into the checker; the hand-written runtime jit_compiler_rv64_static.S (label distances, literal words and literal loads are read).'
+LEVEL_NOTE = 'Trusted: clang cross parse with host libstdc++ headers plus stub headers; the clang assembler and llvm-objdump for the two static .S files (vector file with the documented substitutions); RISC-V instruction semantics and the B/J/CB encoding tables written into the checker; value semantics of the hand-written runtime beyond the fragments listed in the claim; floating-point and branch handlers at word level.'
 EXPLANATION = ('PORT-TYPECHECK(K3), TAB-OPC, LW-SIB, SPLIT-SIB, RCP-NOOP, CBR-BITS/TARGET, RV-BRANCH-RANGE, RV-BRANCH-ENC, RV-IMM32, RV-IMM32-SPLIT, RV-RCPPOOL, MEM-JITMASK, RV-EMASK, IMM-NEG, SS-EXH, CG-SIZE-RV64, WX-ARCH, A64-EMASK.'
          ' RV-HSEM, RV-SS-HSEM, GEN-RESET.'
          ' RV-MEM-HSEM, LW-VALUE.')
